@@ -8,11 +8,11 @@ package main
 //   mon.c14.pair mode=… A=… B=…  monitor: two different messages must not share sign bytes in that mode
 
 import (
+	"bytes"
+	"fmt"
 	"github.com/cosmos/cosmos-sdk/x/authz"
 	govv1 "github.com/cosmos/cosmos-sdk/x/gov/types/v1"
 	"github.com/cosmos/cosmos-sdk/x/group"
-	"bytes"
-	"fmt"
 	"math/rand"
 	"strings"
 
@@ -243,6 +243,12 @@ func init() {
 					}
 				}
 			}
+			// batches of add-records of equal encoded length that differ in the first record only
+			arOf := func(key string) *aoltypes.MsgAddRecordRequest {
+				return &aoltypes.MsgAddRecordRequest{TopicName: "t", Key: []byte(key), Value: []byte("value"), WriterAddress: w, OwnerAddress: o}
+			}
+			multi([]sdk.Msg{arOf("key-a"), arOf("key-z")}, []sdk.Msg{arOf("key-b"), arOf("key-z")})
+			multi([]sdk.Msg{arOf("key-a"), arOf("key-y"), arOf("key-z")}, []sdk.Msg{arOf("key-a"), arOf("key-x"), arOf("key-z")})
 			multi([]sdk.Msg{awOf(w), awOf(c1)}, []sdk.Msg{awOf(o), awOf(c1)})
 			multi([]sdk.Msg{ct0, awOf(w)}, []sdk.Msg{dw, awOf(w)})
 		}
